@@ -23,7 +23,17 @@ E2.  Five families of root cases:
   are refused (fewer than three / no sensors inside, wrong shape, unknown method)
   after which the history goes on.  Every request of every history of the stated
   length is judged on its own against the exact tessellation of the arguments of
-  THAT request: the statement is about the value of one call.
+  THAT request: the statement is about the value of one call.  The menu holds pairs of
+  DIFFERENT convex boundaries with exactly the same bounding box (and the same number of
+  points) that retain different sensors, so one object serves both in either order.
+* ``outline`` - how the boundary is WRITTEN DOWN: one jittered layout (plus one outside sensor)
+  and under it the full product {outline: square with four chamfered corners of very different
+  sizes / closed ring (first point repeated at the end)} x {which point the list starts with}
+  x {counter-clockwise, clockwise} x {translation} x {scale}.  With a large common offset the
+  distance between neighbouring boundary points (also between the first and the last one of the
+  list) is far below 1e-5 of the coordinate magnitude, yet they are distinct hull vertices: the
+  exact tessellation of exactly the floats handed over still decides, and the result must not
+  depend on the start point, the direction, the translation or the scale.
 * ``mc``   - ``montecarlo_fn`` for one (generator distribution, spatial
   distribution, generator count, means, stddevs, weights) and under it every
   n_realizations x seed; statistics recomputed from the returned realisations
@@ -491,7 +501,14 @@ SESSION_BOUNDARIES = {          # four points each, so that ONE array object can
     "trapezoid": [(-0.75, -0.5), (2.75, -0.5), (2.375, 2.5), (-0.25, 2.5)],  # the lattice, other areas
     "two": [(1.5, -0.5), (2.5, -0.5), (2.5, 1.5), (1.5, 1.5)],              # lattice nodes 2 and 5 only
     "none": [(4.0, 4.0), (5.0, 4.0), (5.0, 5.0), (4.0, 5.0)],               # no sensor at all
+    # same bounding box (and same first two points) as "square" / "wide", other shape: the upper
+    # left part of the box is cut off, which drops lattice nodes 3, 6, 7 / node 6 and OUTSIDE[0]
+    "square-cut": [(-0.5, -0.5), (2.5, -0.5), (2.5, 2.5), (-0.5, 0.5)],
+    "wide-cut": [(-2.0, -1.0), (3.5, -1.0), (3.5, 3.5), (-2.0, 1.0)],
 }
+SESSION_SAME_BOX = {"square": "square-cut", "square-cut": "square", "wide": "wide-cut", "wide-cut": "wide"}
+# lattice nodes / outside sensors the two cut boundaries retain
+SESSION_CUT_RETAINS = {"square-cut": ({0, 1, 2, 4, 5, 8}, set()), "wide-cut": ({0, 1, 2, 3, 4, 5, 7, 8}, {1})}
 SESSION_PASSING = ["list", "array", "same-array"]
 # (subset of object A, subset of object B); both contain lattice nodes 2 and 5; B is handed over
 # in reverse order; each layout gets the two OUTSIDE sensors (positions 1 and last)
@@ -537,6 +554,7 @@ class Session:
         self.kept = np.zeros((4, 2))
         self.kept_history = []          # values the kept array held when it was handed over
         self.raised_on = []             # objects with a request that raised
+        self.served = {k: [] for k in sensors}      # boundaries each object was asked about
 
     def request(self, op):
         """-> (history flags, result)."""
@@ -556,6 +574,10 @@ class Session:
             flags.append("after-refused-request-on-this-object")
         elif self.raised_on:
             flags.append("after-refused-request-on-other-object")
+        if SESSION_SAME_BOX.get(op["boundary"]) in self.served[op["obj"]] and not op.get("refusal"):
+            flags.append("same-bounding-box-other-shape-served-by-this-object")
+        if not op.get("refusal"):
+            self.served[op["obj"]].append(op["boundary"])
         hs = self.objs[op["obj"]]
         if op.get("refusal") == "three-columns":
             arg = [list(p) + [0.0] for p in pts]
@@ -620,6 +642,123 @@ def run_session(root, ctx, tier):
                                           exact_indices=ref["indices"]),
                               expected=exp, observed=obs,
                               explanation=f"request {j} of the history ({hclass.replace('-', ' ')}): " + expl)
+
+
+# ---------------------------------------------------------------------------
+# outline roots: how the boundary is written down (start point, direction, closed ring, neighbouring
+# points that are close compared with the magnitude of the coordinates)
+
+CHAMFERS = [2.0 ** -4, 2.0 ** -7, 2.0 ** -10, 2.0 ** -2]      # lattice pitches, one per corner
+
+
+def _chamfered():
+    lo, hi = -0.5, 2.5
+    c = CHAMFERS
+    # counter-clockwise; the list starts and ends at the two points of the first chamfer
+    return [(lo + c[0], lo), (hi - c[1], lo), (hi, lo + c[1]), (hi, hi - c[2]), (hi - c[2], hi),
+            (lo + c[3], hi), (lo, hi - c[3]), (lo, lo + c[0])]
+
+
+OUTLINES = {"chamfered": _chamfered(),
+            "closed-ring": BOUNDARIES["hexagon"] + BOUNDARIES["hexagon"][:1]}
+OUTLINE_STARTS = [0, 1, 2, 3]           # the list starts at point floor(r * len / 4)
+OUTLINE_DIRECTIONS = ["ccw", "cw"]
+OUTLINE_SPACE = dict(outline=list(OUTLINES), start=OUTLINE_STARTS, direction=OUTLINE_DIRECTIONS,
+                     translation=TRANSLATIONS, scale=SCALES)
+
+
+def outline_space(tier):
+    """quick: the first two scales."""
+    return dict(OUTLINE_SPACE, scale=SCALES[:2] if tier == "quick" else SCALES)
+
+
+def outline_points(name, start, direction):
+    pts = OUTLINES[name]
+    r = (start * len(pts)) // 4
+    pts = pts[r:] + pts[:r]
+    return pts if direction == "ccw" else pts[::-1]
+
+
+def run_outline(root, ctx, tier):
+    base = base_sensors(root, 1)
+    refs, impl = {}, {}
+
+    def geometry(case):
+        return (place(base, case["translation"], case["scale"]),
+                place(outline_points(case["outline"], case["start"], case["direction"]),
+                      case["translation"], case["scale"]))
+
+    def run_impl(case):
+        k = tuple(case[d] for d in OUTLINE_SPACE)
+        if k not in impl:
+            ctx.count("transitions")
+            impl[k] = call_weights(*geometry(case))
+        return impl[k]
+
+    def violation(oracle, case, expl, expected, observed):
+        g = geometry(case)
+        ctx.violation(f"C14:spatial_weights:boundary-outline:{oracle}", root,
+                      detail=dict(case=case, sensors=g[0], boundary=g[1],
+                                  first_and_last_boundary_point=[g[1][0], g[1][-1]],
+                                  call="HvsrSpatial(sensors).spatial_weights(boundary)"),
+                      expected=expected, observed=observed, explanation=expl)
+
+    for case in product.deviations(outline_space(tier), None):
+        ctx.count("states")
+        sensors, boundary = geometry(case)
+        k = (case["outline"], case["translation"], case["scale"])
+        if k not in refs:
+            # the hull of the points does not depend on where the list starts or which way it runs
+            t = RV.tessellate(sensors, place(OUTLINES[case["outline"]], case["translation"], case["scale"]))
+            lim = Fraction(1e-9 * EXTENT * case["scale"]) ** 2
+            t["knife"] = any(RV.boundary_clearance(p, t["hull"]) <= lim for p in sensors)
+            refs[k] = t
+        ref = refs[k]
+        if ref["knife"]:
+            ctx.count("knife_edge")
+            continue
+        if len(ref["indices"]) != len(root["subset"]):
+            raise AssertionError("alphabet: unexpected number of sensors inside the outline")
+        rtol = rtol_for(case["translation"])
+        res = run_impl(case)
+        problems = judge_weights(res, ref, rtol)
+        ctx.count("validated")
+        ctx.count("outline_cases")
+        # non-vacuity: ends of the list closer than 1e-5 of the coordinate magnitude, yet distinct
+        (fx, fy), (lx, ly) = boundary[0], boundary[-1]
+        if boundary[0] == boundary[-1]:
+            ctx.count("outline_closed_ring")
+        elif abs(fx - lx) <= 1e-5 * abs(lx) and abs(fy - ly) <= 1e-5 * abs(ly):
+            ctx.count("outline_ends_distinct_within_1e-5_of_magnitude")
+        for tag, expl, exp, obs in problems:
+            violation(tag, case, expl, exp, obs)
+        if res[0] != "ok" or problems:
+            ctx.outcome(("outline", "problem", [p[0] for p in problems]))
+            continue
+        got = dict(zip(res[2], res[1]))
+        base_case = dict(case, start=0, direction="ccw", translation=TRANSLATIONS[0], scale=SCALES[0])
+        if base_case != case:
+            b = run_impl(base_case)
+            if b[0] == "ok" and len(b[1]) == len(b[2]) and set(b[2]) == set(got):
+                bmap = dict(zip(b[2], b[1]))
+                which = [d for d in ("start", "direction", "translation", "scale") if case[d] != base_case[d]]
+                worst = max(abs(got[i] - bmap[i]) / bmap[i] for i in got if bmap[i] > 0)
+                if not worst <= 2 * rtol:
+                    violation("invariance-" + "+".join(which), case,
+                              "weights (as a mapping sensor -> weight) change under "
+                              + ", ".join(which) + " of the boundary point list / coordinates", bmap, got)
+                ctx.count("outline_invariance_compared")
+        if case["translation"] == 0.0 and case["scale"] == 1.0:
+            ctx.count("transitions")
+            rres = call_regions(HvsrSpatial(np.array(sensors)), np.array(boundary))
+            for tag, expl, exp, obs in judge_regions(rres, sensors, ref):
+                violation("bounded_voronoi-" + tag, case, expl, exp, obs)
+            if rres[0] == "ok":
+                ctx.count("outline_regions_checked", len(rres[2]))
+            if case["start"] == 0 and case["direction"] == "ccw":
+                ctx.outcome(("outline", case["outline"],
+                             [round(float(ref["weights"][i]), 9) for i in ref["indices"]]))
+                ctx.nontrivial_case(("outline", root["subset"], case["outline"]))
 
 
 # ---------------------------------------------------------------------------
@@ -837,11 +976,41 @@ def check_alphabet():
         for name, sub in (("A", sa), ("B", sb)):
             assert 2 in sub and 5 in sub
             want = dict(square=len(sub), wide=len(sub) + 2, trapezoid=len(sub), two=2, none=0)
+            for b, (nodes, outs) in SESSION_CUT_RETAINS.items():
+                want[b] = len(nodes & set(sub)) + len(outs)
+                hull = RV.convex_hull(SESSION_BOUNDARIES[b])
+                kept = [q for q in sens[name] if RV.strictly_inside(q, hull)]
+                L = lattice("jitter")
+                assert sorted(kept) == sorted([L[i] for i in sub if i in nodes] + [OUTSIDE[i] for i in outs])
             for b, pts in SESSION_BOUNDARIES.items():
                 hull = RV.convex_hull(pts)
                 assert sum(RV.strictly_inside(q, hull) for q in sens[name]) == want[b], (layout, name, b)
                 assert all(RV.boundary_clearance(q, hull) > lim for q in sens[name])
     assert all(len(v) == 4 for v in SESSION_BOUNDARIES.values())
+    for a, b in SESSION_SAME_BOX.items():
+        pa, pb = SESSION_BOUNDARIES[a], SESSION_BOUNDARIES[b]
+        assert pa != pb and all(f(p[i] for p in pa) == f(p[i] for p in pb) for f in (min, max) for i in (0, 1))
+    # first layout pair: both boundaries of a same-box pair retain >= 4 sensors of either object (both
+    # orders of the pair end in a judged request) and retain different ones
+    sens = session_sensors(0)
+    for name in sens:
+        for a, b in SESSION_SAME_BOX.items():
+            ia, ib = (RV.tessellate(sens[name], SESSION_BOUNDARIES[x])["indices"] for x in (a, b))
+            assert len(ia) >= 4 and len(ib) >= 4 and ia != ib, (name, a, b)
+    # outlines: same hull whatever the start point / direction; neighbouring points of a chamfer are
+    # distinct; all lattice sensors strictly inside, OUTSIDE[0] strictly outside
+    for name, pts in OUTLINES.items():
+        hull = RV.convex_hull(pts)
+        assert all(RV.strictly_inside(p, hull) for p in lattice("jitter"))
+        assert not RV.strictly_inside(OUTSIDE[0], hull)
+        for r in OUTLINE_STARTS:
+            for d in OUTLINE_DIRECTIONS:
+                q = outline_points(name, r, d)
+                assert sorted(q) == sorted(pts) and RV.convex_hull(q) == hull
+    assert len(RV.convex_hull(OUTLINES["chamfered"])) == 8
+    for r in OUTLINE_STARTS:
+        q = outline_points("chamfered", r, "ccw")
+        assert q[0] != q[-1] and abs(q[0][0] - q[-1][0]) == abs(q[0][1] - q[-1][1]) == CHAMFERS[r]
 
 
 def roots(tier, seed):
@@ -863,6 +1032,10 @@ def roots(tier, seed):
         for sub in itertools.combinations(range(9), k):
             out.append(dict(kind="twin", family="jitter", subset=list(sub),
                             k=3 if (tier != "quick" and k == 4) else 2))
+    # boundary outlines: quick = the 84 6-sensor layouts, thorough = all 336; full product under each
+    for k in ((6,) if tier == "quick" else (4, 5, 6)):
+        for sub in itertools.combinations(range(9), k):
+            out.append(dict(kind="outline", family="jitter", subset=list(sub)))
     # histories: one root per (layout pair, first request)
     for layout in range(1 if tier == "quick" else len(SESSION_LAYOUTS)):
         for first in range(len(session_menu())):
@@ -882,6 +1055,8 @@ def run_root(root, ctx, tier):
         run_twin(root, ctx, tier)
     elif root["kind"] == "session":
         run_session(root, ctx, tier)
+    elif root["kind"] == "outline":
+        run_outline(root, ctx, tier)
     else:
         run_mc(root, ctx, tier)
 
@@ -892,6 +1067,9 @@ def finalize(ctx, tier):
             "mc_weight_sensitive", "mc_std_definition_sensitive", "closed_form_cases",
             "line_cases_agreeing", "twin_on_array_edge", "twin_in_array_interior",
             "session_requests_refused",
+            "session_judged:same-bounding-box-other-shape-served-by-this-object",
+            "outline_closed_ring", "outline_ends_distinct_within_1e-5_of_magnitude",
+            "outline_invariance_compared", "outline_regions_checked",
             "session_judged:first-request", "session_judged:after-valid-request",
             "session_judged:boundary-array-overwritten-in-place",
             "session_judged:after-refused-request-on-this-object",
@@ -931,14 +1109,28 @@ def describe(tier):
              "; judged against the exact tessellation: indices, non-negativity, sum of all weights at 1e-9, "
              "every weight at max(1e-9, 16 eps extent/spacing).  "
              "session roots: every history of " + ("1-2" if tier == "quick" else "1-2 (3 layout pairs) and, "
-             "over a reduced menu of 34 requests, 1-3") + " requests from a menu of 66 = 2 live objects "
+             "over a reduced menu of 34 requests, 1-3") + " requests from a menu of 90 = 2 live objects "
              "(different layouts, one in reverse order, both with two outside sensors) x {spatial_weights, "
              "bounded_voronoi} x boundary {square, wide (retains the outside sensors), trapezoid, one holding "
-             "two sensors, one holding none} x boundary handed over as {fresh list, fresh array, ONE array "
+             "two sensors, one holding none, and for square and wide a second quadrilateral with exactly the "
+             "same bounding box and first two points but another shape, retaining other sensors} x boundary "
+             "handed over as {fresh list, fresh array, ONE array "
              "the caller keeps and overwrites in place} + 6 malformed requests (three-column boundary, "
              "unknown declustering method); the last request of every history is judged by itself against "
              "the exact tessellation of its own arguments (requests with fewer than four sensors inside "
              "are executed, not judged, and the history goes on).  "
+             "outline roots: " + ("the 84 6-sensor" if tier == "quick" else "all 336 4-, 5-, 6-sensor")
+             + " jittered layouts plus one outside sensor; under each the full product of outline {square "
+             "whose four corners are chamfered by 2^-4, 2^-7, 2^-10, 2^-2 pitches (8 hull vertices, neighbours "
+             "down to 5e-8 of the coordinate magnitude apart at the largest offset), hexagon given as a closed "
+             "ring (first point repeated at the end)} x the point the list starts with {4 positions: each "
+             "chamfer in turn supplies the first and the last point of the list} x {counter-clockwise, "
+             "clockwise} x translation {0,1e2,1e4} extents x scale "
+             + ("{1,1e-3}" if tier == "quick" else "{1,1e-3,1e3}") + "; each case = one real spatial_weights "
+             "call judged against the exact tessellation of exactly the floats handed over (indices, "
+             "non-negativity, sum, area fractions) and against the untransformed run with the list in its "
+             "first form (invariance under start point, direction, translation, scale); bounded_voronoi regions "
+             "at the untranslated, unscaled cases.  "
              "mc roots: full product of generator/spatial distribution (4) x generator count {4,2} x "
              "3 mean menus x 3 stddev menus (incl. all zero) x 5 weight menus (one produced by the real "
              "tessellation); under each n_realizations {1,10,1000} x seeds "
@@ -950,6 +1142,8 @@ def describe(tier):
                     mc_roots=product.size(MC_SPACE, None), seeds=10 if tier == "quick" else 50,
                     twin_roots=126 if tier == "quick" else 336,
                     twin_cases_per_4_sensor_root=product.size(twin_space(4, tier), 2 if tier == "quick" else 3),
+                    outline_roots=84 if tier == "quick" else 336,
+                    outline_cases_per_root=product.size(outline_space(tier), None),
                     session_menu=len(session_menu()), session_depth="2" if tier == "quick" else "2 (full menu), 3 (reduced menu)",
                     session_histories=(len(session_menu()) * (1 + len(session_menu())) * (1 if tier == "quick" else 3)
                                        + (0 if tier == "quick" else
@@ -963,6 +1157,10 @@ def describe(tier):
                      "(no nearest-sensor cell) are not generated; the weights of such a layout are held only "
                      "to the conditioning of the pair's bisector, max(1e-9, 16 eps extent/spacing) (4.8e-7 at "
                      "2^-26, 7.6e-6 at 2^-30 pitches), their total to 1e-9",
+                     "boundaries that agree in a summary: only pairs with the same bounding box, number of points "
+                     "and first two points are generated (not e.g. equal area or equal centroid)",
+                     "neighbouring boundary points are at least 2^-10 pitches apart (before scaling) and are all "
+                     "hull vertices; the hull is always taken of exactly the floats handed over",
                      "a history is a sequence of requests in one process on objects created at its start; "
                      "requests the statement does not quantify over (fewer than four sensors inside, malformed "
                      "arguments) may raise or return anything, but the requests after them are judged",
